@@ -28,9 +28,9 @@ TOL = 1e-9
 S3 = math.sqrt(3.0)
 DEVS = ["RectangleContainmentIgnoresRotation", "BorderPointTwoNearestVertices", "RectanglePosSetterKeepsCorners",
         "LayoutSkipsCentring", "Sec3SetPosKeepsSectors", "Sec3SetRadiusKeepsCentres", "MoveBypassesPosSetter",
-        "WrapUsersUseCachedTranslation", "CircleBorderZeroRatioIsOne"]
+        "WrapUsersUseCachedTranslation", "CircleBorderZeroRatioIsOne", "ClusterPlaceAllDropsMinDist"]
 INVS = ["TypeOK", "VertexLaws", "ContainmentAgrees", "ContainmentLaws", "ZAgreesWithQ", "BorderAgrees", "BorderLaws",
-        "LayoutLaws", "ClusterRadiusLaws", "Sec3NoOverlap", "DistLaws", "WrapLaws", "MutFresh"]
+        "LayoutLaws", "ClusterRadiusLaws", "Sec3NoOverlap", "DistLaws", "WrapLaws", "MutFresh", "PlaceClLaws"]
 ACTIONS = ["Contain", "Border", "Layout", "DistMat", "Wrap", "MutNew", "MutSetPos", "MutMoveRel", "MutMovePolar", "MutSetRot",
            "MutSetRad", "MutAddUser", "MutDelUsers", "WrapSetPos", "WrapMoveRel", "WrapMovePolar", "WrapSetRaises",
            "Place", "PlaceCl", "PProc"]
@@ -161,8 +161,22 @@ def rel_domain(thorough, seed):
             cases.append(dict(what="place", s=shape("sec3", P1, r=q(3, 0, 2)), rot=rot, ratio=ratio, users=users, sector=0))
         for sec in (1, 2, 3):
             cases.append(dict(what="place", s=shape("sec3", P1, r=q(3, 0, 2)), rot=rot, ratio=q(1, 0, 2), users=users, sector=sec))
-        for t, n, i in (("simple", 7, 4), ("square", 4, 3), ("3sec", 3, 2)):
-            cases.append(dict(what="placecl", cl=cluster(t, n, q(3, 0, 2), P1), rot=rot, id=i, ratio=q(1, 0, 2), users=users))
+    # cluster-level API: every way of writing the arguments, with non-zero minimum distances
+    per = 6 if thorough else 4
+    for ri, rot in enumerate(rots if thorough else rots[:2]):
+        for t, n, some in (("simple", 7, [4, 1, 7]), ("square", 4, [3, 2]), ("3sec", 3, [2, 3])):
+            cl = cluster(t, n, q(3, 0, 2), P1)
+            every = list(range(1, n + 1))
+            hi, lo = q(7, 0, 10), q(1, 0, 2)
+            mixed = lambda m: [hi if k % 2 == 0 else lo for k in range(m)]
+            cases += [
+                dict(what="placecl", cl=cl, rot=rot, form="none_scalar", ids=every, nums=[per] * n, ratios=[hi] * n),
+                dict(what="placecl", cl=cl, rot=rot, form="none_lists", ids=every, nums=[per + (k % 2) for k in range(n)], ratios=mixed(n)),
+                dict(what="placecl", cl=cl, rot=rot, form="int", ids=some, nums=[per + k for k in range(len(some))], ratios=mixed(len(some))),
+                dict(what="placecl", cl=cl, rot=rot, form="list_scalar", ids=some, nums=[per] * len(some), ratios=[hi] * len(some)),
+                dict(what="placecl", cl=cl, rot=rot, form="list_scalar", ids=every, nums=[per] * n, ratios=[lo] * n),
+                dict(what="placecl", cl=cl, rot=rot, form="list_lists", ids=some, nums=[per + 2 * k for k in range(len(some))], ratios=mixed(len(some))),
+            ]
     for rmin in (q(0), q(1, 0, 2), q(1)):
         cases.append(dict(what="pproc", s=shape("circle", P0, r=q(2)), n=20 * users, rmin=rmin))
     cases.append(dict(what="pproc", s=shape("rect", P0, w=q(3), h=q(1)), n=20 * users, rmin=q(0)))
@@ -282,7 +296,7 @@ def _run_case(job):
     op = e["post"]["op"]
     try:
         return {"contain": rc_contain, "border": rc_border, "layout": rc_layout, "distmat": rc_distmat, "wrap": rc_wrap,
-                "place": rc_place, "placecl": rc_place, "pproc": rc_pproc}[op](e, seed)
+                "place": rc_place, "placecl": rc_placecl, "pproc": rc_pproc}[op](e, seed)
     except _Hang:
         raise
     except Exception as ex:  # a library call raised on a legal input
@@ -557,37 +571,10 @@ def rc_wrap(e, seed):
     return (0 if probs else len(got)), probs
 
 
-def rc_place(e, seed):
-    from pyphysim.cell import cell
-    c, out = e["post"], e["out"]
-    verts = [pc(p) for p in out["verts"]]
-    ctr = pc(out["centre"])
-    ratio = qf(c["ratio"])
-    rad = math.sqrt(qf(out["rad2"]))
-    np.random.seed(seed)
-    if c["op"] == "placecl":
-        cl, rot = c["cl"], c["rot"]
-        C = build_cluster(cl, rot)
-        C.add_random_users(c["id"], c["users"] // 2, None, ratio)
-        C.add_random_users([c["id"]], [c["users"] - c["users"] // 2], None, [ratio])
-        obj = C.get_cell_by_id(c["id"])
-        users = obj.users
-        sig = f"Cluster(type={cl['type']}, n={cl['n']}, rotation={rot}).add_random_users(cell {c['id']}, min_dist_ratio={ratio})"
-        kind = {"simple": "hex", "3sec": "sec3", "square": "square"}[cl["type"]]
-    else:
-        s, rot = c["s"], c["rot"]
-        obj = build(s, rot)[-1]
-        kind = s["kind"]
-        if c["sector"]:
-            obj.add_random_users_in_sector(c["users"], c["sector"], None, ratio)
-            sig = f"Cell3Sec{_sig(s, rot)}.add_random_users_in_sector(sector={c['sector']}, min_dist_ratio={ratio})"
-        else:
-            obj.add_random_user(None, ratio)
-            obj.add_random_users(c["users"] - 1, None, ratio)
-            sig = f"{type(obj).__name__}{_sig(s, rot)}.add_random_users(min_dist_ratio={ratio})"
-        users = obj.users
-    if len(users) != c["users"]:
-        return 0, [bad(f"{sig}: {len(users)} users instead of {c['users']}")]
+def _judge_users(sig, users, verts, ctr, ratio, rad, want, kind, rot):
+    """(rel) the randomly placed users of one cell against the TLC-emitted polygon / centre / radius"""
+    if len(users) != want:
+        return [bad(f"{sig}: {len(users)} users instead of {want}")]
     outside = [u.pos for u in users if not inside_f(verts, u.pos)]
     near = [u.pos for u in users if abs(u.pos - ctr) < ratio * rad - TOL]
     probs = []
@@ -595,8 +582,116 @@ def rc_place(e, seed):
         fid = F_RECT if (kind == "square" and rot % 90 != 0) else None
         probs.append(bad(f"{sig}: {len(outside)} of {len(users)} users lie outside the cell, e.g. {outside[0]:.4f}", fid))
     if near:
-        probs.append(bad(f"{sig}: {len(near)} users closer to the centre than requested, e.g. {near[0]:.4f}"))
-    return (0 if probs else len(users)), probs
+        probs.append(bad(f"{sig}: {len(near)} of {len(users)} users are closer to the centre than min_dist_ratio={ratio} "
+                         f"allows, e.g. {near[0]:.4f} at {abs(near[0] - ctr) / rad:.3f} radius"))
+    return probs
+
+
+def _ids_form(ids, variant):
+    """the same ids as list / tuple / numpy array / range (when contiguous)"""
+    if variant % 4 == 1:
+        return tuple(ids)
+    if variant % 4 == 2:
+        return np.array(ids)
+    if variant % 4 == 3 and ids == list(range(ids[0], ids[0] + len(ids))):
+        return range(ids[0], ids[0] + len(ids))
+    return list(ids)
+
+
+def rc_placecl(e, seed):
+    """Cluster.add_random_users in the argument form of the case; every cell of the cluster is judged"""
+    c, out = e["post"], e["out"]
+    cl, rot, form = c["cl"], c["rot"], c["form"]
+    ids, nums, ratios = c["ids"], c["nums"], [qf(r) for r in c["ratios"]]
+    rad = math.sqrt(qf(out["rad2"]))
+    kind = {"simple": "hex", "3sec": "sec3", "square": "square"}[cl["type"]]
+    np.random.seed(seed)
+    C = build_cluster(cl, rot)
+    variant = seed % 8
+    color = [None, "b", None, "g"][variant % 4]                 # a scalar colour or none
+    colors = [["b", "g", "k"][k % 3] for k in range(len(ids))]     # per-cell colours
+    want_color = {}
+    if form == "none_scalar":
+        if variant % 2 == 0:
+            C.add_random_users(None, nums[0], color, ratios[0])
+        elif color is None:
+            C.add_random_users(num_users=nums[0], min_dist_ratio=ratios[0])
+        else:
+            C.add_random_users(num_users=nums[0], user_color=color, min_dist_ratio=ratios[0])
+        call = f"add_random_users(cell_ids omitted, num_users={nums[0]}, user_color={color!r}, min_dist_ratio={ratios[0]})"
+        want_color = {i: color for i in ids}
+    elif form == "none_lists":
+        cols = colors if variant % 2 == 0 else None
+        C.add_random_users(None, list(nums), cols, list(ratios))
+        call = f"add_random_users(None, {nums}, {cols}, {ratios})"
+        want_color = {i: (cols[k] if cols else None) for k, i in enumerate(ids)}
+    elif form == "int":
+        for k, i in enumerate(ids):
+            C.add_random_users(i, nums[k], color, float(ratios[k]))
+        call = f"add_random_users(<int id>, n, {color!r}, ratio) for ids {ids}, n {nums}, ratios {ratios}"
+        want_color = {i: color for i in ids}
+    elif form == "list_scalar":
+        C.add_random_users(_ids_form(ids, variant), nums[0], color, ratios[0])
+        call = f"add_random_users({_ids_form(ids, variant)!r}, {nums[0]}, {color!r}, {ratios[0]})"
+        want_color = {i: color for i in ids}
+    elif form == "list_lists":
+        cols = colors if variant % 2 == 0 else color
+        # (numbers of users must be Python ints - the library asserts it; ratios may be numpy floats)
+        C.add_random_users(_ids_form(ids, variant), list(nums), cols,
+                           np.array(ratios) if variant % 3 == 1 else list(ratios))
+        call = f"add_random_users({_ids_form(ids, variant)!r}, {nums}, {cols!r}, {ratios})"
+        want_color = {i: (cols[k] if isinstance(cols, list) else cols) for k, i in enumerate(ids)}
+    else:
+        raise ValueError(form)
+    sig0 = f"Cluster(type={cl['type']}, n={cl['n']}, rotation={rot}).{call}"
+    okc, probs = 0, []
+    total = 0
+    for k, exp in enumerate(out["cells"], start=1):
+        cellobj = C.get_cell_by_id(k)
+        users = cellobj.users
+        total += len(users)
+        p = _judge_users(f"{sig0}: cell {k}", users, [pc(v) for v in exp["verts"]], pc(exp["centre"]), qf(exp["ratio"]), rad,
+                         exp["count"], kind, rot)
+        if not p and want_color.get(k) is not None and any(u.marker_color != want_color[k] for u in users):
+            p = [bad(f"{sig0}: cell {k}: users do not carry the requested colour {want_color[k]!r}")]
+        if not p and any(u.cell_id != k for u in users):
+            p = [bad(f"{sig0}: cell {k}: users do not carry the id of their cell")]
+        probs += p[:1]
+        okc += len(users)
+    if not probs and (C.num_users != total or len(C.get_all_users()) != total):
+        probs.append(bad(f"{sig0}: num_users / get_all_users disagree with the cells"))
+    return (0 if probs else okc), probs[:2]
+
+
+def rc_place(e, seed):
+    c, out = e["post"], e["out"]
+    verts = [pc(p) for p in out["verts"]]
+    ctr = pc(out["centre"])
+    ratio = qf(c["ratio"])
+    rad = math.sqrt(qf(out["rad2"]))
+    np.random.seed(seed)
+    s, rot = c["s"], c["rot"]
+    obj = build(s, rot)[-1]
+    kind = s["kind"]
+    kw = seed % 2 == 1          # the same call written with positional / keyword arguments
+    if c["sector"]:
+        if kw:
+            obj.add_random_users_in_sector(num_users=c["users"] - 1, sector=c["sector"], min_dist_ratio=ratio)
+            obj.add_random_user_in_sector(sector=c["sector"], min_dist_ratio=ratio)
+        else:
+            obj.add_random_users_in_sector(c["users"] - 1, c["sector"], None, ratio)
+            obj.add_random_user_in_sector(c["sector"], None, ratio)
+        sig = f"Cell3Sec{_sig(s, rot)}.add_random_user(s)_in_sector(sector={c['sector']}, min_dist_ratio={ratio})"
+    else:
+        if kw:
+            obj.add_random_user(min_dist_ratio=ratio)
+            obj.add_random_users(num_users=c["users"] - 1, min_dist_ratio=ratio)
+        else:
+            obj.add_random_user(None, ratio)
+            obj.add_random_users(c["users"] - 1, "g", ratio)
+        sig = f"{type(obj).__name__}{_sig(s, rot)}.add_random_user(s)(min_dist_ratio={ratio}, {'keyword' if kw else 'positional'} arguments)"
+    probs = _judge_users(sig, obj.users, verts, ctr, ratio, rad, c["users"], kind, rot)
+    return (0 if probs else len(obj.users)), probs
 
 
 def rc_pproc(e, seed):
@@ -931,6 +1026,9 @@ DEV_MODELS = {
     "Sec3SetRadiusKeepsCentres": ("MutFresh", dict(ops={"mut"}, G=1, mutalpha=malpha([MUT_BASE["Cell3Sec"]], pos=[PA], r=[q(1), q(2)], rot=[30]))),
     "MoveBypassesPosSetter": ("MutFresh", dict(ops={"mut"}, G=1, mutalpha=malpha([MUT_BASE["Cell"]], pos=[PA, PB], r=[q(1)], rot=[0]))),
     "WrapUsersUseCachedTranslation": ("MutFresh", dict(ops={"mut"}, G=1, mutalpha=malpha([MUT_BASE["Wrap(Cell)"]], pos=[PA, PB], r=[q(1)], rot=[0], wpos=[WA]))),
+    "ClusterPlaceAllDropsMinDist": ("PlaceClLaws", dict(ops={"place"}, rel=[dict(
+        what="placecl", cl=cluster("simple", 3, q(1), P0), rot=0, form="none_scalar", ids=[1, 2, 3], nums=[2, 2, 2],
+        ratios=[q(1, 0, 2)] * 3)])),
     "CircleBorderZeroRatioIsOne": ("BorderAgrees", dict(ops={"border"}, shapes=[shape("circle", P1, r=q(2))], rots=[0], G=1)),
 }
 
